@@ -5,7 +5,7 @@ V = os.path.dirname(os.path.dirname(os.path.abspath(__file__)))
 sys.path.insert(0, V)
 
 CHECKS = {
- "C01": ("exploration", "6", "Seeded simulation: every root type and every command code x framing swept once, then seeded sampling with swarm knobs; the strict decode recorded by the simulator is compared item by item with an independent reference interpreter over a pinned layout snapshot, and the text form of every valid value with the pinned text forms; 10% of the runs decode under a caller-chosen root path, 5% pass a stray command_code / parameter_encryption argument, 0.4% re-decode in a fresh interpreter started with -O; rare magnitudes (4-33 kB buffers, 300-element lists), captures that start with GetCapability / StartAuthSession exchanges. Sampling, not proof: values and sizes are sampled, the structural space (types, union arms, command x configuration) is swept and reported by counters.",
+ "C01": ("exploration", "6", "Seeded simulation: every root type and every command code x framing swept once, then seeded sampling with swarm knobs; the strict decode recorded by the simulator is compared item by item with an independent reference interpreter over a pinned layout snapshot, and the text form of every valid value with the pinned text forms; 10% of the runs decode under a caller-chosen root path, 5% pass a stray command_code / parameter_encryption argument, 0.4% re-decode in a fresh interpreter started with -O; rare magnitudes (4-33 kB buffers, 300-element lists), captures that start with GetCapability / StartAuthSession exchanges; C01.H: the decode again in OS threads of a fresh interpreter under a seeded line-level schedule. Sampling, not proof: values and sizes are sampled, the structural space (types, union arms, command x configuration) is swept and reported by counters.",
          "seeded traffic generator + reference-model refinement over the recorded history (deterministic simulation; scheduler / source kind as perturbations)"),
  "C02": ("exploration", "6", "Same runs as C01 plus warn-mode runs with value-only faults; the re-encoder runs as a lazy consumer task of the decoder; chunks are compared with the input slices at the reference offsets.",
          "seeded traffic + value faults; re-encoder as consumer stage; reference offsets"),
@@ -29,7 +29,7 @@ CHECKS = {
          "byte-source seam with pull counting, crash points, source-kind swarm"),
  "C11": ("exploration", "6", "Decoder object vs events_to_obj, obj_to_events of both vs decoded events (==, lengths, value classes), re-encoding, Canonical facade, on swept and sampled well-formed inputs biased to absent parts, with bystander decodes in between; events / objects of messages decoded many runs earlier in the same process are converted again later (decode now, convert later).",
          "seeded traffic + round-trip oracles inside scheduled runs"),
- "C12": ("exploration", "6", "2-4 decode tasks per run over messages with encrypted parameter areas of different commands, histories A,B,A / A,A / A,B,C,A and step-wise interleavings incl. pre-emption inside a byte pull and cancelled bystanders; every decode is compared (==, type identity) with solo decodes of the same arguments at the start and the end of the run and with stream slices; bystanders request parameter encryption on arbitrary commands; long-lived probe messages decoded when a worker process starts are re-decoded hundreds of runs later and compared with the results kept since then (C12.e); the same arguments are decoded in a fresh interpreter (plain and -O) and compared (C12.f); A,B,A histories over capture containers; calls into other public helpers of the library as bystanders.",
+ "C12": ("exploration", "6", "2-4 decode tasks per run over messages with encrypted parameter areas of different commands, histories A,B,A / A,A / A,B,C,A and step-wise interleavings incl. pre-emption inside a byte pull and cancelled bystanders; every decode is compared (==, type identity) with solo decodes of the same arguments at the start and the end of the run and with stream slices; bystanders request parameter encryption on arbitrary commands; long-lived probe messages decoded when a worker process starts are re-decoded hundreds of runs later and compared with the results kept since then (C12.e); the same arguments are decoded in a fresh interpreter (plain and -O) and compared (C12.f); A,B,A histories over capture containers; calls into other public helpers of the library as bystanders; warn-mode decodes of malformed inputs; C12.H: the decodes of a run concurrently in OS threads of a fresh interpreter, the baton changing hands at seeded line events inside the library (sys.settrace).",
          "seeded scheduler over generator tasks sharing process-global state (the property the scheduler exists for)"),
  "C14": ("exploration", "6", "Printers run as lazy consumer tasks over strict and warn decodes of all input families; rows are parsed by tokens and matched against rows derived independently from the recorded events (one row per structure/primitive/warning, one per byte buffer, bit rows, depth, hex column, text form against the pinned text forms; a list without element events must keep its own row; the events printer yields one line per event naming its path; captures of more than 65536 events; a second printer pipeline interleaved).",
          "consumer-stage simulation over fault-injected event streams; token-level row oracle"),
@@ -78,7 +78,7 @@ def main():
                   "baseline_off_cmd": "cd /repo && /venv/bin/python -m pytest -ra -q -p no:cacheprovider --timeout=900 --continue-on-collection-errors",
                   "source_commits": [], "add_only": True},
         "engines": [{"name": "detsim", "path": "/verif/sim", "serves_properties": [c["property_id"] for c in checks],
-                     "kind_free_text": "single-process deterministic simulator: seeded traffic generator + reference model, fault injector on stored bytes / EOF / history / containers, byte-source and file seams, generator-stepping scheduler with pre-emption inside pulls, replay files, ddmin-style minimiser"}],
+                     "kind_free_text": "single-process deterministic simulator (plus fresh-interpreter references and seeded line-level OS-thread schedules): seeded traffic generator + reference model, fault injector on stored bytes / EOF / history / containers, byte-source and file seams, generator-stepping scheduler with pre-emption inside pulls, replay files, ddmin-style minimiser"}],
         "checks": checks,
         "not_applicable": na,
         "notes": "VERIF_SEED (default 20261004) decides every run; exit 0 held / 1 VIOLATION with reproducing replay / 2 harness error. known_findings.json lists recorded and fixed findings.",
